@@ -517,7 +517,19 @@ def _member_of(expr):
     return None
 
 
+ENUM_HOME = {'TaskStatus': 'valjean.cosette.task',
+             'TestOutcome': MOD}
+
+
 def check_verdict_keys(ctx):
+    '''The verdict of the two key-set results, as a decision table over
+    EVERY subset of statuses present in the classification (each present
+    status holds at least one name): true exactly when the success status is
+    the only one present.  The table is computed by the finite-domain
+    evaluator sa/minieval.py from the source of __bool__ (helper methods
+    inlined); the empty classification is not constrained.'''
+    from itertools import combinations
+    from ..minieval import MiniEval, Unknown, read_int_enum
     program = ctx.program
     found = 0
     for cname, (enum, member) in SUCCESS_MEMBER.items():
@@ -525,37 +537,51 @@ def check_verdict_keys(ctx):
         meth = cinfo.methods.get('__bool__')
         if meth is None:
             raise AnalysisError(f'VERDICT-KEYS: {cname}.__bool__ not found')
-        rets = [n for n in walk_local(meth.node) if isinstance(n, ast.Return)]
-        if len(rets) != 1 or rets[0].value is None:
-            ctx.undecided('VERDICT-KEYS', meth, 'verdict with several '
-                          'returns', at=meth.where())
-            continue
-        expr = rets[0].value
+        members = read_int_enum(program, ENUM_HOME[enum], enum)
+        if not members or member not in members:
+            raise AnalysisError(f'VERDICT-KEYS: enum {enum} not readable')
+        enums = {}
+        for ename, home in ENUM_HOME.items():
+            got = read_int_enum(program, home, ename)
+            if got:
+                enums[ename] = got
         found += 1
-        # the success member named in the expression must be the one of
-        # the class (DONE / SUCCESS)
-        named = {m for m in (_member_of(n) for n in ast.walk(expr)) if m
-                 and m.isupper()}
-        table = {}
-        for cell in ((True, 0), (True, 1), (True, 2), (False, 1),
-                     (False, 2), (False, 0)):
-            table[cell] = _eval_verdict(expr, cell, member)
-        ctx.count('decision_table_rows', 6)
-        want = {(True, 0): True, (True, 1): False, (True, 2): False,
-                (False, 1): False, (False, 2): False}
-        if any(table[c] is not None and table[c] != v
-               for c, v in want.items()) or named - {member}:
+        names = sorted(members, key=lambda n: members[n].value)
+        wrong, unknown, n_states = [], [], 0
+        for size in range(1, len(names) + 1):
+            for present in combinations(names, size):
+                n_states += 1
+                classify = {members[n]: [f'item-{n}'] for n in present}
+                evaluator = MiniEval(
+                    enums, {'classify': classify},
+                    lambda mname, cinfo=cinfo: program.find_method(cinfo,
+                                                                   mname))
+                try:
+                    got = evaluator.truth(evaluator.call_function(meth.node))
+                except Unknown as err:
+                    unknown.append((present, str(err)))
+                    continue
+                want = present == (member,)
+                if got != want:
+                    wrong.append((present, got))
+        ctx.count('decision_table_rows', n_states)
+        rets = [n for n in walk_local(meth.node) if isinstance(n, ast.Return)]
+        shown = txt(rets[0].value) if len(rets) == 1 and rets[0].value \
+            is not None else '__bool__'
+        if wrong:
             cond = False
-        elif any(table[c] is None for c in want):
+        elif unknown:
             cond = None
         else:
-            cond = named == {member}
-        rows = {f'success_present={c[0]},other_keys={"2+" if c[1] == 2 else c[1]}':
-                table[c] for c in table}
+            cond = True
         ctx.decide('VERDICT-KEYS', meth,
-                   f'{txt(expr)} is true exactly when {enum}.{member} is '
-                   f'the only key', cond, at=meth.where(rets[0]),
-                   detail={'table': rows, 'members_named': sorted(named),
+                   f'{cname}: `{shown[:70]}` is true exactly when '
+                   f'{enum}.{member} is the only status present '
+                   f'({n_states} subsets)', cond, at=meth.where(),
+                   detail={'wrong': [f'{list(p)} -> {g}'
+                                     for p, g in wrong[:6]],
+                           'undecided': [f'{list(p)}: {e}'
+                                         for p, e in unknown[:3]],
                            'note': 'the empty classification is not '
                                    'constrained'})
     # ByLabels: all(oracles) and OK == total
@@ -673,6 +699,9 @@ def check_count_shape(ctx):
             cond = len(args) >= 4 and args[2:4] == params[3:5]
             ctx.decide('COUNT-SHAPE', func, f'recursive call forwards '
                        f'{args[2:4]}', cond, at=func.where(node))
+            # ... and descends into the sub-index RESTRICTED to the results
+            # carrying the current label value, on every path
+            _check_restricted(ctx, func, node)
     # source of rok / rko
     src = program.func(f'{MOD}:TestStatsTestsByLabels._stats_for_labels')
     assigns = {}
@@ -699,6 +728,57 @@ def check_count_shape(ctx):
                            at=src.where(node),
                            detail=f'the set of {want} results')
     ctx.floor('COUNT-SHAPE-src', n_src, 2, 'rok/rko arguments')
+
+
+def _check_restricted(ctx, func, call):
+    '''The index handed to the recursive call is, on every path,
+    `<index>.keep_only(<set of the current label value>)`.'''
+    if not call.args:
+        return
+    arg = call.args[0]
+    index_par = func.params[1] if len(func.params) > 1 else 'index'
+    # the loop that supplies the label value and its set
+    parents = {}
+    for node in ast.walk(func.node):
+        for child in ast.iter_child_nodes(node):
+            parents[id(child)] = node
+    loop = call
+    while loop is not None and not isinstance(loop, ast.For):
+        loop = parents.get(id(loop))
+    setvar = None
+    if loop is not None and isinstance(loop.target, ast.Tuple) and len(
+            loop.target.elts) == 2:
+        setvar = txt(loop.target.elts[1])
+
+    def restricted(expr):
+        return isinstance(expr, ast.Call) and call_name(expr) == \
+            'keep_only' and txt(receiver(expr)) == index_par and len(
+                expr.args) == 1 and txt(expr.args[0]) == setvar
+    sources = [arg]
+    if isinstance(arg, ast.Name):
+        sources = [n.value for n in ast.walk(loop or func.node)
+                   if isinstance(n, ast.Assign) and any(
+                       txt(t) == arg.id for t in n.targets)]
+    flat = []
+    for src in sources:
+        if isinstance(src, ast.IfExp):
+            flat += [src.body, src.orelse]
+        else:
+            flat.append(src)
+    if not flat or setvar is None:
+        ctx.undecided('COUNT-SHAPE', func, f'sub-index of the recursion '
+                      f'{txt(arg)} not understood', at=func.where(call))
+        return
+    bad = [src for src in flat if not restricted(src)]
+    passthrough = [src for src in bad if txt(src) == index_par]
+    ctx.decide('COUNT-SHAPE', func,
+               f'recursion descends into {[txt(s)[:40] for s in flat]}',
+               True if not bad else False if passthrough else None,
+               at=func.where(call),
+               detail='on some path the index is handed down unfiltered: '
+                      'results that lack the current label are counted at '
+                      'the deeper levels (OK / KO / total inflated)'
+               if passthrough else None)
 
 
 def _len_shape(expr):
